@@ -22,7 +22,8 @@ AltValid(e, called) == LET o == e.out.alt IN Injective(o) /\ {o[i] : i \in 1..Le
 Prep(e) ==
   LET called == Called(e.post, e.k, e.theta, e.m)
       masked == 0 \notin called
-  IN  TLCEval([ called |-> called,
+  IN  TLCEval([ e |-> e,
+                called |-> called,
                 masked |-> masked,
                 scores |-> IF AltValid(e, called)
                            THEN [i \in 1..Len(e.out.alt) |-> Score(e.post, e.out.alt[i], e.theta, e.m)] ELSE <<>>,
@@ -32,16 +33,20 @@ Prep(e) ==
                                     IN  [r |-> r, ranks |-> {x[1] : x \in r.gp}]]
                             ELSE <<>> ])
 
-SampleVerdict(e, s, c) ==
-  LET P == e.ps[s]
-      out == e.out.samples[s]
-      nrec == Len(e.out.alt) + 1
+SampleVerdict(s, c) ==
+  LET e == c.e
+      P == c.e.ps[s]
+      out == c.e.out.samples[s]
+      nrec == Len(c.e.out.alt) + 1
       masked == c.masked
       r == c.samples[s].r
       ranks == c.samples[s].ranks
       (* every listed genotype carries its probability, every other entry is 0 (linear in the array length) *)
-      gpOk == /\ \A x \in r.gp : Close(out.gp[x[1] + 1], x[2], e.m)
-              /\ \A i \in 1..r.gpLen : (i - 1) \in ranks \/ out.gp[i] = 0
+      gpOk == /\ \A x \in c.samples[s].r.gp : Close(c.e.out.samples[s].gp[x[1] + 1], x[2], c.e.m)
+              /\ \A i \in 1..c.samples[s].r.gpLen : (i - 1) \in c.samples[s].ranks \/ c.e.out.samples[s].gp[i] = 0
+      (* all entries outside ranks are 0 (gpOk), so the sum of the array is the sum over ranks *)
+      rankSeq == SetToSeq(ranks)
+      gpSum == SumSeq([j \in 1..Len(rankSeq) |-> out.gp[rankSeq[j] + 1]])
   IN  IF ~(\E cl \in r.calls : cl[2] = out.gt) THEN "GtDotIffExcluded"
       ELSE IF Len(out.afp) # nrec \/ Len(out.aop) # nrec THEN "AfpAopLength"
       ELSE IF ~(\A i \in 1..nrec : \/ Close(out.afp[i], r.afp[i], e.m * P)
@@ -54,26 +59,27 @@ SampleVerdict(e, s, c) ==
       ELSE IF out.gp = <<-1>> \/ Len(out.gp) # r.gpLen           \* printed "." or wrong number of entries
            THEN (IF masked THEN "GpRefMaskedLength" ELSE "GpLength")
       ELSE IF ~gpOk THEN "GpIsPosterior"
-      ELSE IF SumSeq(out.gp) > 1000 + r.gpLen THEN "GpSumAtMostOne"
+      ELSE IF gpSum > 1000 + Cardinality(ranks) THEN "GpSumAtMostOne"
       ELSE "ok"
 
-RECURSIVE FirstBad(_, _, _)
-FirstBad(e, s, c) ==
-  IF s > Len(e.ps) THEN "ok"
-  ELSE LET v == SampleVerdict(e, s, c) IN IF v = "ok" THEN FirstBad(e, s + 1, c) ELSE v
+RECURSIVE FirstBad(_, _)
+FirstBad(s, c) ==
+  IF s > Len(c.e.ps) THEN "ok"
+  ELSE LET v == SampleVerdict(s, c) IN IF v = "ok" THEN FirstBad(s + 1, c) ELSE v
 
-Verdict(e, c) ==
+Verdict(c) ==
+  LET e == c.e IN
   IF \E s \in 1..Len(e.post) : Total(e.post[s]) # e.m THEN "PosteriorTotal"
   ELSE IF ~AltValid(e, c.called) THEN "AltIffThreshold"
   ELSE IF ~(\A i \in 1..(Len(c.scores) - 1) : c.scores[i] >= c.scores[i + 1]) THEN "AltOrder"
   ELSE IF e.out.masked # c.masked THEN "RefMaskedIff"
-  ELSE FirstBad(e, 1, c)
+  ELSE FirstBad(1, c)
 
 PrepAt(i) == IF i <= Len(Trace) THEN Prep(Trace[i]) ELSE <<>>
 
 Init == l = 1 /\ bad = 0 /\ cur = PrepAt(1)
 Next == /\ l <= Len(Trace)
-        /\ LET v == Verdict(Trace[l], cur)
+        /\ LET v == Verdict(cur)
            IN  /\ IF v = "ok" THEN TRUE ELSE PrintT(<<"@@J", ToJson([reject |-> l, clause |-> v])>>)
                /\ bad' = IF v = "ok" THEN bad ELSE bad + 1
         /\ l' = l + 1
